@@ -3,7 +3,6 @@
 package rig
 
 import (
-	"fmt"
 	"regexp"
 	"runtime"
 	"strings"
@@ -78,18 +77,29 @@ func TopFrames(stack string, n int) string {
 // still blocked when f returned) is recovered and returned; callers are expected to have
 // examined Leftovers() themselves before returning from f.
 func Bubble(t *testing.T, f func()) (exitErr error) {
-	defer func() {
-		if p := recover(); p != nil {
-			if e, ok := p.(error); ok && strings.Contains(e.Error(), "deadlock") {
-				exitErr = e
-				return
+	// Run in a helper goroutine: when the race detector has reported something, the testing
+	// package fails the bubble's test and calls FailNow (runtime.Goexit) on the caller -
+	// that must end the helper, not the whole lane.
+	done := make(chan struct{})
+	var repanic any
+	go func() {
+		defer close(done)
+		defer func() {
+			if p := recover(); p != nil {
+				if e, ok := p.(error); ok && strings.Contains(e.Error(), "deadlock") {
+					exitErr = e
+					return
+				}
+				repanic = p
 			}
-			exitErr = fmt.Errorf("panic in bubble: %v", p)
-			panic(p)
-		}
+		}()
+		synctest.Test(t, func(*testing.T) { f() })
 	}()
-	synctest.Test(t, func(*testing.T) { f() })
-	return nil
+	<-done
+	if repanic != nil {
+		panic(repanic)
+	}
+	return exitErr
 }
 
 // Wait is synctest.Wait.
